@@ -142,7 +142,19 @@ func check(raw json.RawMessage) fw.Result {
 		return fw.Result{Verdict: fw.Inconclusive, Msg: err.Error()}
 	}
 	d := in.Doc
-	r, err := wr.Render(wr.Opts{HTML: d.HTML, UserCSS: d.UserCSS, Hints: d.Hints, Engine: d.Engine, Zoom: d.Zoom, Files: d.Files})
+	var (
+		r   *wr.Rendered
+		err error
+	)
+	if sig, _, _ := fw.Protect(func() {
+		r, err = wr.Render(wr.Opts{HTML: d.HTML, UserCSS: d.UserCSS, Hints: d.Hints, Engine: d.Engine, Zoom: d.Zoom, Files: d.Files})
+	}); sig != "" {
+		// a render that panics produced no drawing to judge: crashes are C01's verdicts (known crash
+		// sites are listed there); here the case is outside the domain, and counted
+		res.Verdict = fw.Skip
+		res.Count("skipped_render_panics", 1)
+		return res
+	}
 	if err != nil {
 		res.Verdict = fw.Skip
 		return res
